@@ -240,7 +240,10 @@ func runCRLHistory(h *Harness, cfg histCfg) {
 		h.R.Config = "faulty"
 	}
 	r.cfg.faulty = faulty
-	dnA, dnB := Pick(tp, 0, 0, 1, 2, 3, 4, 5), Pick(tp, 0, 0, 1, 2, 3, 4, 5)
+	dnA, dnB := Pick(tp, 0, 0, 1, 2, 3, 4, 5, 6), Pick(tp, 0, 0, 1, 2, 3, 4, 5)
+	if dnA == 6 {
+		dnB = 6 // the two issuing CAs' names then differ in one UTF-8 continuation byte only
+	}
 	sc["dn"] = fmt.Sprintf("%d/%d", dnA, dnB)
 	w := NewWorld(h, WorldOpts{Intermediate: tp.Chance(1, 2), RSA: tp.Chance(1, 6), DNShapeA: dnA, DNShapeB: dnB})
 	r.w = w
